@@ -16,29 +16,46 @@ THEOREMS = [P + t for t in (
     "image_type_comma_counterexample", "graph_roundtrip_partial", "graph_roundtrip_component_partial",
     "graph_children_perm", "rowLaw_of_roundTrips", "rowLaw_jsonfield",
     "routes_ok", "rows_ok", "set_get_every_route", "unset_get_every_route", "unset_identity_every_route",
-    "attr_unset_image_type_counterexample",
+    "history_last_op_decides", "attr_unset_image_type_counterexample",
     # the codec hypothesis discharged for the value model that carries C03's and C12's codec models
     "rich_rowLaw", "fieldLaw_rich", "typed_wf", "rich_rows_ok", "fieldLaw_discharged", "props_roundtrip_typed_partial",
     "dict_roundtrip_typed_partial", "graph_roundtrip_typed_partial", "graph_roundtrip_component_typed_partial")]
 TRUSTED_BASE = [
-    "gen/slivermap.py: AST patterns of the *_sliver_to_graph_properties_dict / *_from_graph_properties_dict family, "
-    "SLIVER_PROPERTY_TO_GRAPH, the setters of the sliver classes; dynamic probes for absent-property decoding, None-tolerant setters, enum resolution",
+    "gen/slivermap.py: the mapping tables are read from the AST of the *_sliver_to_graph_properties_dict / *_from_graph_properties_dict family "
+    "and cross-checked on every run against a behavioural probe of the same functions (sample value per setter, falsy-but-valid values, the "
+    "comma-joined pair); where a rewrite defeats the AST patterns the probed table stands in (evidence: ast_fallback). SLIVER_PROPERTY_TO_GRAPH "
+    "from the AST; setters of the sliver classes from the AST; element routes (every python property of every element class of fim.user, what "
+    "`el.a = v` / `el.a = None` / set_property(p, None) hand on, the shape of set_property / set_properties / get_property / unset_property) "
+    "from probes on a recording stub, no source text matched",
     "Model/Sliver.lean `concrete` codecs (objects represented by their to_json text, json.dumps/loads of safe strings, ',' join/split): differential only",
-    "codec hypothesis `FieldLaw`: discharged in Lean for the seven JSONField classes from C03.lossless (rowLaw_jsonfield, for any value model that carries "
-    "C03's encode/decode) and for the ImageRef text format (image_join_split); it remains an explicit per-value hypothesis for Delegations (C12), Tags, "
-    "Gateway, ERO/PathInfo, MaintenanceInfo, JSONData and json.dumps/loads of node_map / stitch_node, all exercised differentially",
-    "Model/Sliver.lean graph store: per-NodeID node list and adjacency; the existence check of the parent in add_link and the set order of neighbours are not modelled",
+    "codec law `FieldLaw`: a *theorem* (fieldLaw_discharged, *_roundtrip_typed_partial) for the value model SliverRich.rich, whose encoders/decoders are "
+    "C03's and C12's Lean models dispatched by the generated (Dec, arg) pair - JSONField classes, Tags, Gateway, PathInfo, ERO, MaintenanceInfo, "
+    "JSONData, Delegations, string tuples, booleans, enums, ip addresses, plain strings, the ImageRef pair; what stays outside Lean is the "
+    "json.dumps/json.loads text layer between a stored string and its parsed form (as in C03 / C12) and the `rich` dispatch itself, which is "
+    "not run against the code (its parts are, by C03's and C12's correspondence; `concrete` is, by this one)",
+    "Model/Sliver.lean graph store: per-NodeID node list and adjacency; add_node's id-taken check and add_link's lookup of the parent are modelled; "
+    "the set order of neighbours is not (children are compared up to order)",
     "CPython json.dumps/json.loads in JSONSliver (string-valued dictionaries)",
+    "oracle only (no Lean model): update_labels / update_capacities / rename(), properties handed to the constructors (add_node(**kw) ...), "
+    "the deep-sliver reader element.get_sliver()",
 ]
 ASSUMPTIONS = [
     "identity-encoded properties hold str values, node_map holds strings without characters that json escapes, management_ip is in canonical form",
-    "only values whose C03 codec round-trips standalone are used (others are C03's subject and are counted as skipped)",
-    "sibling children have distinct names (they live in a dict keyed by name); node ids are distinct within a tree",
+    "an all-default JSONField object (Capacities(), Labels(), ...) is stored as the empty text, which reads back as absent: C03 roundtrip_iff "
+    "characterises exactly this class; the oracle accepts absent-or-equal for it and nothing else",
+    "sibling children have distinct names (they live in a dict keyed by name); node ids are distinct within a tree (a taken id is exercised "
+    "in the correspondence only: add_node rejects it)",
     "sub-interfaces, for the graph path, are SubInterface-typed children of a DedicatedPort interface (what Interface.add_child_interface creates); arbitrary interface nesting is exercised through the dictionary / JSON forms only",
+    "element.name is the handle's cached name: it is compared after assignments to the attribute and after rename(), not after set_property('name', v)",
 ]
 RULE = ("sliver trees (depth <= 4, <= 12 elements) with a random subset of every class's list_properties() set to values from a per-type pool "
-        "(adversarial strings, every enum member, codec objects), through props / deep dict / JSONSliver / NetworkX graph; every element kind x "
-        "every property name through set/get/unset; non-trivial = depth >= 2 or >= 3 properties set; distinct by canonical JSON of the case")
+        "(adversarial strings, every enum member, codec objects), through props / deep dict / JSONSliver / NetworkX graph (also below a present / "
+        "missing parent, and with a node id taken twice); on elements at 16 positions of a topology (node, component, its service, its interface, "
+        "sub-interface, top-level service and its port, switch / facility node with service and port, port-mirror service, composite node, link) "
+        "every settable name as a *history* v1 -> v2 -> unset -> v3 -> v1 -> unset -> v2 -> unset -> unset over three values (falsy ones "
+        "included: False, '', (), empty objects, JSON 0 / \"\" / [] / null) in which every set route (set_property, set_properties, attribute) "
+        "and unset route (unset_property, set_property(None), attribute = None) is taken and both readers follow every step; several keywords "
+        "in one set_properties; constructor keywords; non-trivial = depth >= 2 or >= 3 properties set (trees), every element history; distinct by canonical JSON of the case")
 
 KINDS = ["node", "component", "service", "interface", "link"]
 SAFE = "abcdefghijklmnopqrstuvwxyzABCDEFGHIJKLMNOPQRSTUVWXYZ0123456789_-.:"
@@ -740,8 +757,9 @@ def correspondence(ctx, res):
     #    unset_property / set_property(None) / attribute = None) on real elements at every position
     for case in load_corpus("elem") + gen_elem_cases(ctx, ctx.sub_rng("corr-elem"), ctx.scale(1, 4), full=ctx.thorough):
         out = run_elem_case(case)
-        for (cls, gprops, ops, replies), o in zip(out["streams"], out["obs"]):
-            reqs.append(["elemc", cls, gprops, ops])
+        for st_, o in zip(out["streams"], out["obs"]):
+            cls, gprops, ops, replies = st_[:4]
+            reqs.append(["elemc", cls, gprops, ops] + ([st_[4]] if len(st_) > 4 else []))
             impl.append(["ok", replies])
             meta.append({"elem": [[o["pos"], o["key"], o["value"], o["opts"]]]})
             res.count("elem-pos:" + o["pos"])
@@ -918,15 +936,21 @@ def gen_elem_cases(ctx, rng, reps, full=True):
                         pool = value_pool(kind, k)
                         descs += pool[:3] if k == "type" else pool
                     else:
-                        descs += [gen_value(rng, kind, k, 7) for _ in range(2 if base else 1)]
+                        descs += [gen_value(rng, kind, k, 7) for _ in range(3 if base else 2)]
                 else:
-                    descs = [gen_value(rng, kind, k, 7)]
-                for d in descs:
-                    if usable_elem(d):
-                        lst.append([pos, k, d, {"rot": rng.randrange(0, 9), "raw": rng.choice(["inst", "obj", "text"])}])
+                    descs = [gen_value(rng, kind, k, 7) for _ in range(3)]
+                descs = [d for d in descs if usable_elem(d)]
+                if not descs:
+                    continue
+                # every triple is a history over three values: v1, overwritten by v2, ... ; with stride 1 every value
+                # (the falsy ones in particular) is once the first write, once the overwrite, once the write after an unset
+                stride = 1 if (base and (ctx.thorough or k in FALSY)) else 2 if base else 3
+                for i in range(0, len(descs), stride):
+                    more = [descs[(i + 1) % len(descs)], descs[(i + 2) % len(descs)]]
+                    lst.append([pos, k, descs[i], {"rot": rng.randrange(0, 9), "raw": rng.choice(["inst", "obj", "text"]), "more": more}])
                 if k in PAIR_KEYS and rep == 0:     # with the other half of the image pair already stored
-                    for _ in range(2):
-                        lst.append([pos, k, gen_value(rng, kind, k, 7), {"rot": rng.randrange(0, 9), "ctx": "image-stored"}])
+                    a, b = gen_value(rng, kind, k, 7), gen_value(rng, kind, k, 7)
+                    lst.append([pos, k, a, {"rot": rng.randrange(0, 9), "ctx": "image-stored", "more": [b, a]}])
         for _ in range(2 * reps):     # several keywords in one set_properties call
             keys = [k for k in settable(kind) if k not in ("name", "type", "stitch_node") and k not in PAIR_KEYS]
             ks = rng.sample(keys, min(len(keys), rng.randrange(2, 6)))
@@ -1035,7 +1059,11 @@ def run_multi(topo, els, tr):
 
 
 def run_elem_triple(topo, els, tr):
-    """one (position, key, value) through every route; returns (driver stream, oracle observation)"""
+    """one (position, key, values) through every route, as a *history* on one element: set v1, overwrite with v2
+    (the last write must win, falsy values included), unset, set v3, overwrite, unset, ... ; every set and unset route
+    is taken, each followed by both readers.  Returns (driver stream, oracle observation).
+    `opts`: rot (rotation of routes), more ([v2, v3] value descriptions), raw (how a JSON blob is assigned to the
+    attribute), ctx ("image-stored": the image pair is in the graph when a set route is taken)."""
     r = R.get()
     if tr[1] == "*":
         return run_multi(topo, els, tr)
@@ -1044,27 +1072,30 @@ def run_elem_triple(topo, els, tr):
     kind = POS_KIND[pos]
     el = els[pos]
     rot = int(opts.get("rot", 0))
-    v = mk_value(d)
     _, props = topo.graph_model.get_node_properties(node_id=el.node_id)
     gprops = {g: x for g, x in props.items() if g in model_gprops() and isinstance(x, str)}
-    # what the sliver's setter stores (the driver is handed the stored form)
-    fresh = r["SLIVER"][kind]()
-    fresh.set_property(k, v)
-    stored = fresh.get_property(k)
     has_get, has_set = attr_info(el, k)
-    # what is assigned through the attribute: for the JSON blobs an object of the class, a python object or a JSON text
-    assigned, stored_attr = v, stored
-    if isinstance(v, r["JSONData"]) and has_set:
-        raw = opts.get("raw", "inst")
-        obj = json.loads(v.json)
-        if raw == "text":
-            assigned = v.json
-        elif raw == "obj" and obj is not None and not isinstance(obj, str):
-            assigned = obj
-            stored_attr = type(v)(obj)
+    name0 = wire(el.name)       # the handle's cached name (it follows assignments to the attribute, not set_property)
+    descs = [d] + [x for x in (opts.get("more") or []) if usable_elem(x)]
+    vals = []       # (value, what the sliver's setter stores, what is assigned to the attribute, what that stores)
+    for i, dd in enumerate(descs):
+        v = mk_value(dd)
+        fresh = r["SLIVER"][kind]()
+        fresh.set_property(k, v)
+        stored = fresh.get_property(k)
+        assigned, stored_attr = v, stored
+        if isinstance(v, r["JSONData"]) and has_set:
+            raw = ["inst", "obj", "text"][(["inst", "obj", "text"].index(opts.get("raw", "inst")) + i) % 3]
+            obj = json.loads(v.json)
+            if raw == "text":
+                assigned = v.json
+            elif raw == "obj" and obj is not None and not isinstance(obj, str):
+                assigned = obj
+                stored_attr = type(v)(obj)
+        vals.append((v, stored, assigned, stored_attr))
     ops, replies, steps = [], [], []
 
-    def read(tag):
+    def read():
         g1 = elem_get(el, k)
         ops.append(["get", k])
         replies.append(wire(g1[1]) if g1[0] == "ok" else g1)
@@ -1075,19 +1106,21 @@ def run_elem_triple(topo, els, tr):
             replies.append(attr_reply(el, k, g2))
         return g1, g2
 
-    before = read("before")
+    before = read()
+    last = [before]
     sroutes = [s for s in SET_ROUTES if s != "attr" or has_set]
     uroutes = [u for u in UNSET_ROUTES if u != "attr_none" or has_set]
-    sroutes = sroutes[rot % len(sroutes):] + sroutes[:rot % len(sroutes)]
-    last = before
-    for si, sr in enumerate(sroutes):
+
+    def do_set(ri, vi, first=False):
+        sr = sroutes[(ri + rot) % len(sroutes)]
+        v, stored, assigned, stored_attr = vals[vi % len(vals)]
         want = stored
         if opts.get("ctx") == "image-stored":
             # the other half of the image pair is in the graph when the route is taken
             res = call(lambda: el.set_properties(image_ref="stored-image", image_type="qcow2"))
             ops.append(["setprops", [["image_ref", ["s", "stored-image"]], ["image_type", ["s", "qcow2"]]]])
             replies.append(res)
-            last = read("ctx")
+            last[0] = read()
         if sr == "set_property":
             res = call(lambda: el.set_property(k, v))
             ops.append(["set", k, wire(stored)])
@@ -1099,16 +1132,18 @@ def run_elem_triple(topo, els, tr):
             ops.append(["attrset", k, wire(stored_attr)])
             want = stored_attr
         replies.append(res)
-        g = read("set")
-        steps.append({"op": "set", "route": sr, "res": res, "want": want, "prev": last, "got": g})
-        if si == 0:
+        g = read()
+        steps.append({"op": "set", "route": sr, "res": res, "want": want, "prev": last[0], "got": g, "vi": vi % len(vals)})
+        if first:
             # the third reader: the deep sliver of the element (build_deep_*_sliver on the live topology)
             try:
                 steps[-1]["sliver"] = ["ok", el.get_sliver().get_property(k)]
             except Exception as e:
                 steps[-1]["sliver"] = ["err", err_kind(e)]
-        last = g
-        ur = uroutes[(si + rot // 3) % len(uroutes)]
+        last[0] = g
+
+    def do_unset(ri, op="unset"):
+        ur = uroutes[(ri + rot // 3) % len(uroutes)]
         if ur == "unset_property":
             res = call(lambda: el.unset_property(k))
             ops.append(["unset", k])
@@ -1119,23 +1154,22 @@ def run_elem_triple(topo, els, tr):
             res = call(lambda: setattr(el, k, None))
             ops.append(["attrset", k, None])
         replies.append(res)
-        g = read("unset")
-        steps.append({"op": "unset", "route": ur, "res": res, "prev": last, "got": g})
-        last = g
+        g = read()
+        steps.append({"op": op, "route": ur, "res": res, "prev": last[0], "got": g})
+        last[0] = g
+
+    # the history: overwrite (v1 -> v2), unset, set after unset (v3), overwrite (-> v1), unset, set (v2), unset, unset again
+    do_set(0, 0, first=True)
+    do_set(1, 1)
+    do_unset(0)
+    do_set(2, 2)
+    do_set(0, 0)
+    do_unset(1)
+    if len(uroutes) > 2:
+        do_set(1, 1)
+        do_unset(2)
     # unsetting what is not there (any more): whatever the route answers, the property reads absent afterwards
-    ur = uroutes[(rot + 1) % len(uroutes)]
-    if ur == "unset_property":
-        res = call(lambda: el.unset_property(k))
-        ops.append(["unset", k])
-    elif ur == "set_property_none":
-        res = call(lambda: el.set_property(k, None))
-        ops.append(["setnone", k])
-    else:
-        res = call(lambda: setattr(el, k, None))
-        ops.append(["attrset", k, None])
-    replies.append(res)
-    g = read("unset")
-    steps.append({"op": "unset-absent", "route": ur, "res": res, "prev": last, "got": g})
+    do_unset(rot + 1, op="unset-absent")
     # every other property must still be readable
     # (one rebuild of the node's sliver, which is what each get_property does)
     others = {}
@@ -1150,8 +1184,8 @@ def run_elem_triple(topo, els, tr):
                 others[k2] = err_kind(e)
     except Exception as e:
         others = {k2: err_kind(e) for k2 in settable(kind)}
-    stream = (type(el).__name__, gprops, ops, replies)
-    obs = {"pos": pos, "kind": kind, "cls": type(el).__name__, "key": k, "value": d, "opts": opts, "stored": stored,
+    stream = (type(el).__name__, gprops, ops, replies, name0)
+    obs = {"pos": pos, "kind": kind, "cls": type(el).__name__, "key": k, "value": d, "opts": opts, "stored": vals[0][1],
            "has_get": has_get, "has_set": has_set, "before": before, "steps": steps, "others": others}
     return stream, obs
 
@@ -1260,10 +1294,11 @@ def check_tree(t, res, paths=ALL_PATHS):
             if isinstance(back, list):          # impl_props error marker
                 found.setdefault((t["k"], "*", "raises:%s%s" % (back[1], raise_hint(t))), {})[path] = (None, back[1])
                 continue
+            b = observe(back, ocanon, sort_kids=True)
         except Exception as e:
+            # (also what observing the rebuilt sliver raises, e.g. on a containment cycle)
             found.setdefault((t["k"], "*", "raises:%s%s" % (err_kind(e), raise_hint(t))), {})[path] = (None, "%s: %s" % (type(e).__name__, str(e)[:120]))
             continue
-        b = observe(back, ocanon, sort_kids=True)
         if path == "props":
             b = dict(b, c=[])
         out = []
@@ -1356,8 +1391,10 @@ def check_elem(case, res):
             p1, p2 = st["prev"]
             route = st["route"]
             if st["op"] == "set":
-                ran["set"].append(route)
                 want = st["want"]
+                # a set route counts where the write is visible (the element held something else)
+                if p1[0] != "ok" or canon(ocanon(p1[1])) != canon(ocanon(want)):
+                    ran["set"].append(route)
                 if st["res"] != "ok":
                     add("set_get", "set-raises:" + st["res"][1], route)
                     # a rejected set changes nothing
@@ -1384,7 +1421,9 @@ def check_elem(case, res):
                     elif canon(attr_seen(k, g2[1])) not in [canon(attr_view(k, want))] + ([canon(None)] if is_empty_codec(want) else []):
                         add("set_get", "attr-get-differs", route, attr_view(k, want), attr_seen(k, g2[1]))
             else:
-                if st["op"] == "unset":
+                # an unset route counts where there was something to unset (the element held a non-default value)
+                held = p1[0] == "ok" and p1[1] is not None and canon(ocanon(p1[1])) != dflt
+                if st["op"] == "unset" and held:
                     ran["unset"].append(route)
                 if st["res"] != "ok":
                     # rejected: must change nothing (either reader)
@@ -1412,7 +1451,7 @@ def check_elem(case, res):
         for (fam, what), by_route in sorted(found.items()):
             hit = [x for x in (SET_ROUTES if fam == "set_get" else UNSET_ROUTES) if x in by_route]
             all_run = ran["set" if fam == "set_get" else "unset"]
-            everywhere = len(set(all_run)) > 1 and set(hit) >= set(all_run)
+            everywhere = set(hit) >= set(all_run)
             rs = "" if everywhere else ":routes=" + "+".join(hit)
             exp, obs = by_route[hit[0]]
             if fam == "unset_get" and what == "still-set":
